@@ -208,6 +208,45 @@ def _desugar_any_all(B, cb, C, which):
     _splice(B, stub, C)
 
 
+def _desugar_last(B, cb):
+    """`dest = it.last()` becomes the loop it abbreviates:
+         r = None;  head: opt = Iterator::next(&mut it);  match opt { None => { dest = r; goto cont }  Some(x) => { r = Some(x); goto head } }
+    so that a search written as `iter.filter(test).last()` reads like the `for` loop that keeps the last item passing the test."""
+    t = B.blocks[cb]["term"]
+    gargs = t["callee"].get("gargs") or []
+    if len(gargs) != 1 or len(t["args"]) != 1 or len(t["dest"]) != 1 or not isinstance(t.get("t"), int):
+        return 0
+    sp = t["sp"]
+    oty = B.locals[t["dest"][0]].get("ty", "std::option::Option<?>")
+    lo = len(B.locals)
+    names = ["it", "itref", "opt", "d", "r"]
+    tys = [gargs[0], "&mut " + gargs[0], oty, "isize", oty]
+    for ty in tys:
+        B.locals.append({"ty": ty, "mut": True})
+    L = {n: lo + i for i, n in enumerate(names)}
+    bo = len(B.blocks)
+    HEAD, SW, DONE, BODY = bo, bo + 1, bo + 2, bo + 3
+    cleanup = {"cleanup": True} if B.blocks[cb].get("cleanup") else {}
+    none = {"k": "agg", "akind": "adt", "adt": "std::option::Option", "variant": "None", "vidx": 0, "fields": [], "ops": [], "ty": oty}
+    B.blocks[cb] = {"stmts": list(B.blocks[cb]["stmts"]) + [{"p": (L["it"],), "rv": {"k": "use", "op": t["args"][0]}, "sp": sp},
+                                                          {"p": (L["r"],), "rv": none, "sp": sp}],
+                    "term": {"k": "goto", "t": HEAD}, **cleanup}
+    nxt = {"decl": "std::iter::Iterator::next", "gargs": [gargs[0]], "trait": "std::iter::Iterator",
+           "resolved": "<%s as std::iter::Iterator>::next" % re.sub(r"<.*$", "<I, P>", gargs[0]), "local": False}
+    B.blocks.append({"stmts": [{"p": (L["itref"],), "rv": {"k": "ref", "bk": "mut", "place": (L["it"],)}, "sp": sp}],
+                     "term": {"k": "call", "callee": nxt, "args": [{"m": (L["itref"],)}], "dest": (L["opt"],), "t": SW, "unwind": None, "sp": sp, "exp": True}})
+    B.blocks.append({"stmts": [{"p": (L["d"],), "rv": {"k": "discr", "place": (L["opt"],), "ty": "isize"}, "sp": sp}],
+                     "term": {"k": "switch", "discr": {"m": (L["d"],)}, "targets": [(0, DONE)], "otherwise": BODY, "ty": "isize"}})
+    B.blocks.append({"stmts": [{"p": tuple(t["dest"]), "rv": {"k": "use", "op": {"m": (L["r"],)}}, "sp": sp}], "term": {"k": "goto", "t": t["t"]}})
+    some = {"k": "agg", "akind": "adt", "adt": "std::option::Option", "variant": "Some", "vidx": 1, "fields": ["0"],
+            "ops": [{"m": (L["opt"], "@Some", ".0")}], "ty": oty}
+    B.blocks.append({"stmts": [{"p": (L["r"],), "rv": some, "sp": sp}], "term": {"k": "goto", "t": HEAD}})
+    B._names = None
+    B._cfg = None
+    B._defs = None
+    return 1
+
+
 def _desugar_filter(B, fb, C, log=None):
     """`for x in it.filter(pred) { body }` with the closure built in this body becomes `for x in it { if pred(&x) { body } }`:
     the filter call hands the inner iterator on, every `next()` on the filtered iterator becomes `next()` on the inner one followed
@@ -268,13 +307,30 @@ def _desugar_filter(B, fb, C, log=None):
         nt["callee"] = nxt
         nt["t"] = SW
         B.blocks[nb] = {"stmts": B.blocks[nb]["stmts"], "term": nt}
+        # where the consumer goes with None and with Some: when what follows the next() is the consumer's own `match` on the item,
+        # each outcome is sent straight to its arm (the consumer's test repeated after ours would join the two again)
+        T_none = T_some = T0
+        b0 = B.blocks[T0]
+        t0 = b0["term"]
+        if t0 is not None and t0["k"] == "switch" and len(b0["stmts"]) == 1 and (b0["stmts"][0].get("rv") or {}).get("k") == "discr" and \
+                tuple(b0["stmts"][0]["rv"]["place"]) == (opt,) and (t0["discr"].get("m") or t0["discr"].get("c")) == tuple(b0["stmts"][0]["p"]) and \
+                not b0.get("cleanup"):
+            tn = [tg for v, tg in t0["targets"] if v == 0]
+            ts = [tg for v, tg in t0["targets"] if v == 1] or [t0["otherwise"]]
+            if tn and isinstance(ts[0], int):
+                T_none = len(B.blocks) + 4
+                T_some = len(B.blocks) + 5
         B.blocks.append({"stmts": [{"p": (D,), "rv": {"k": "discr", "place": (opt,), "ty": "isize"}, "sp": sp}],
-                         "term": {"k": "switch", "discr": {"m": (D,)}, "targets": [(0, T0)], "otherwise": BODY, "ty": "isize"}})
+                         "term": {"k": "switch", "discr": {"m": (D,)}, "targets": [(0, T_none)], "otherwise": BODY, "ty": "isize"}})
         B.blocks.append({"stmts": [{"p": (ITEMREF,), "rv": {"k": "ref", "bk": "shared", "place": (opt, "@Some", ".0")}, "sp": sp},
                                    {"p": (ENVREF,), "rv": {"k": "ref", "bk": "mut", "place": (keep,)}, "sp": sp}],
                          "term": {"k": "goto", "t": STUB}})
-        B.blocks.append({"stmts": [], "term": {"k": "switch", "discr": {"m": (RES,)}, "targets": [(0, heads[nb])], "otherwise": T0, "ty": "bool"}})
+        B.blocks.append({"stmts": [], "term": {"k": "switch", "discr": {"m": (RES,)}, "targets": [(0, heads[nb])], "otherwise": T_some, "ty": "bool"}})
         B.blocks.append({"stmts": [], "term": {"k": "call", "args": [{"m": (ENVREF,)}, {"m": (ITEMREF,)}], "dest": (RES,), "t": TEST, "sp": sp}})
+        if T_none != T0:
+            assert len(B.blocks) == T_none
+            B.blocks.append({"stmts": [dict(b0["stmts"][0])], "term": {"k": "goto", "t": tn[0]}})
+            B.blocks.append({"stmts": [dict(b0["stmts"][0])], "term": {"k": "goto", "t": ts[0]}})
         _splice(B, STUB, C)
     B._names = None
     B._cfg = None
@@ -474,7 +530,36 @@ def _tuple_elems(ty):
     return out or None
 
 
-def split_tuples(B):
+_PRIMS = {"bool", "char", "u8", "u16", "u32", "u64", "u128", "usize", "i8", "i16", "i32", "i64", "i128", "isize", "f32", "f64", "()", "!"}
+
+
+def needs_drop(P, ty, depth=0):
+    """whether dropping a value of this type runs any code (conservatively yes for whatever is not plainly inert)"""
+    ty = ty.strip()
+    if ty in _PRIMS or ty.startswith("&") or ty.startswith("*const") or ty.startswith("*mut") or ty.startswith("fn(") or ty.startswith("unsafe fn("):
+        return False
+    if depth > 4 or P is None:
+        return True
+    el = _tuple_elems(ty)
+    if el:
+        return any(needs_drop(P, e, depth + 1) for e in el)
+    m = re.match(r"^\[(.*); [^;]+\]$", ty)
+    if m:
+        return needs_drop(P, m.group(1), depth + 1)
+    if "<" in ty:
+        return True
+    try:
+        adt = P.adt(ty)
+    except Exception:
+        adt = None
+    if adt is None:
+        return True
+    if any(str(im.get("trait", "")).endswith("ops::Drop") and im.get("self_ty") == ty for im in P.impls):
+        return True
+    return any(needs_drop(P, f["ty"], depth + 1) for v in adt["variants"] for f in v["fields"])
+
+
+def split_tuples(B, P=None):
     """Scalar replacement of the tuple temporaries that splicing a helper leaves behind: a local that is only ever built whole
     (`t = (a, b)` or `t = move t2` of another such local) and read field by field becomes one local per field.  `let (n, cut) =
     helper(..)` then reads, after inlining, like the straight-line code the helper was extracted from: `n = count; cut = true`."""
@@ -555,8 +640,12 @@ def split_tuples(B):
             for a in t["ops"]:
                 see_op(a)
         elif k == "drop":
-            if t["place"][0] in cand:
-                bad.add(t["place"][0])
+            l = t["place"][0]
+            if l in cand:
+                # dropping the whole tuple is dropping its fields: fine while at most one of them has anything to drop
+                nd = [i for i, e in enumerate(cand[l]) if needs_drop(P, e)]
+                if len(t["place"]) != 1 or len(nd) > 1:
+                    bad.add(l)
         elif k == "yield":
             see_op(t["value"])
             if t["resume_arg"][0] in cand:
@@ -655,6 +744,13 @@ def split_tuples(B):
             t["ops"] = [mo(a) for a in t["ops"]]
         elif k == "yield":
             t["value"] = mo(t["value"])
+        elif k == "drop" and t["place"][0] in todo:
+            l = t["place"][0]
+            nd = [i for i, e in enumerate(todo[l]) if needs_drop(P, e)]
+            if nd:
+                t["place"] = (newl[(l, nd[0])],)
+            else:
+                t = {"k": "goto", "t": t["t"], "sp": t.get("sp")}
         blk["term"] = t
     B._names = None
     B._cfg = None
@@ -1151,6 +1247,14 @@ def inline_program(P):
             rv = st.get("rv")
             if rv and rv["k"] == "agg" and rv["akind"] == "closure" and len(st["p"]) == 1:
                 made[st["p"][0]] = rv["def"]
+        lasts = [bb for bb, t in B.calls(cleanup=False) if (t["callee"].get("decl") or "") == "std::iter::Iterator::last" and
+                 str((t["callee"].get("gargs") or [""])[0]).startswith("std::iter::Filter<")]
+        for bb in lasts:
+            if fid not in changed:
+                B = _clone_body(B)
+                changed[fid] = B
+            if _desugar_last(B, bb):
+                log.append("%s: filter(..).last() rewritten as the loop it abbreviates" % fid)
         todo = []
         for bb, t in B.calls(cleanup=False):
             if (t["callee"].get("decl") or "") == "std::iter::Iterator::filter" and len(t["args"]) == 2:
@@ -1201,7 +1305,7 @@ def inline_program(P):
         if k:
             log.append("%s: %d comparison-and-pick diamond(s) read as min/max" % (fid, k))
     for fid, B in changed.items():
-        k = split_tuples(B)
+        k = split_tuples(B, P)
         if k:
             log.append("%s: %d tuple temporar%s split into fields" % (fid, k, "y" if k == 1 else "ies"))
     for fid, B in changed.items():
